@@ -4,6 +4,10 @@ import (
 	"bytes"
 	"encoding/binary"
 	"fmt"
+	"github.com/ipfs/go-cid"
+	cidlink "github.com/ipld/go-ipld-prime/linking/cid"
+	mh "github.com/multiformats/go-multihash"
+	"github.com/storacha/go-ucanto/core/ipld/block"
 	"io"
 	"net/http"
 	"net/http/httptest"
@@ -35,7 +39,7 @@ var c20Elems = []string{carCT, "*/*", "text/html", "application/json", carCT + "
 	" " + carCT + " ", "\t*/*", carCT + "+json", "*/*x", "APPLICATION/VND.IPLD.CAR", "*", "", ";" + carCT, carCT + " ;q=1", "text/*",
 	carCT + ";q", "*/*;q", carCT + ";", carCT + ";q=0", "*/*;q=0", carCT + ";=", carCT + ";q=;v", "text/html;q", ";", ";q"}
 var c20CTs = []string{"-", carCT, "application/json", carCT + "; version=1", carCT + "x", "application/car", " " + carCT}
-var c20Bodies = []string{"valid", "valid0", "empty", "garbage", "nonmsg", "noroot", "missinginv", "validtrunc", "validbadhash", "validbadcid", "twocap", "zerocap"}
+var c20Bodies = []string{"valid", "valid0", "empty", "garbage", "nonmsg", "noroot", "missinginv", "validtrunc", "validbadhash", "validbadcid", "twocap", "zerocap", "validmh20", "validv0", "validid", "validempty"}
 
 func genC20(cfg Config, emit Emit) error {
 	var accepts []string
@@ -168,6 +172,32 @@ func c20Setup() *c20Fixture {
 			if err == nil {
 				m, _ := message.Build([]invocation.Invocation{d}, nil)
 				f.bodies[name] = enc([]ipld.Link{m.Root().Link()}, m.Blocks())
+			}
+		}
+		// well-formed requests that carry, beside the message, a block addressed in a less common way: a
+		// sha2-256 digest truncated to 20 bytes, a CIDv0, an identity CID, a block of no bytes
+		{
+			data := []byte{0x18, 0x2b}
+			full, _ := mh.Sum(data, mh.SHA2_256, -1)
+			short, _ := mh.Sum(data, mh.SHA2_256, 20)
+			idh, _ := mh.Sum(data, mh.IDENTITY, -1)
+			eh, _ := mh.Sum([]byte{}, mh.SHA2_256, -1)
+			extra := map[string]ipld.Block{
+				"validmh20":  block.NewBlock(cidlink.Link{Cid: cid.NewCidV1(0x55, short)}, data),
+				"validv0":    block.NewBlock(cidlink.Link{Cid: cid.NewCidV0(full)}, data),
+				"validid":    block.NewBlock(cidlink.Link{Cid: cid.NewCidV1(0x55, idh)}, data),
+				"validempty": block.NewBlock(cidlink.Link{Cid: cid.NewCidV1(0x55, eh)}, []byte{}),
+			}
+			for name, xb := range extra {
+				xb := xb
+				f.bodies[name] = enc([]ipld.Link{msg.Root().Link()}, func(yield func(ipld.Block, error) bool) {
+					for b, err := range msg.Blocks() {
+						if !yield(b, err) {
+							return
+						}
+					}
+					yield(xb, nil)
+				})
 			}
 		}
 		c20Fix = f
